@@ -281,3 +281,31 @@ CHECKS["C19"] = dict(
     technique="property-based testing (rapid): model-based end-to-end comparison, fault injection on frames, round-trip relations",
     design_ref="DESIGN.md section 4, C19",
 )
+
+CHECKS["C09"] = dict(
+    pkg="c09", level="exploration",
+    props=[dict(name="TestPropHTTPAuth", quick=240, thorough=16 * 1500, shards_quick=12, shards_thorough=16, timeout_quick=900, timeout_thorough=7200),
+           dict(name="TestPropLogin", quick=180, thorough=16 * 1200, shards_quick=12, shards_thorough=16, timeout_quick=900, timeout_thorough=7200),
+           dict(name="TestPropBusToken", quick=48, thorough=16 * 200, shards_quick=4, shards_thorough=16)],
+    rule="HTTP: api.NewAppHandler (JwtAuth = the store's authorizer, AuthToken set) driven in-process with httptest; per case "
+         "5-40 requests: method (standard + junk) x path grammar over /v1/nodes[/<id>[/points|samples|parents|not|junk]] "
+         "with path tricks and non-node routes x JSON or junk bodies x 19 credential classes (none, the auth token, mangled "
+         "auth token, Bearer + auth token, minted valid HS256 token, token issued by NewToken, wrong key, HS384/HS512 with "
+         "the right key, alg none, expired, truncated, one character changed, empty, garbage, Basic, ...; the signing key is "
+         "read from the store file so that expired and other-algorithm tokens are minted by the harness). A second bus "
+         "connection subscribed to > records store-bound subjects. Oracle: unauthorised => no store-bound bus message and, on "
+         "node routes, status 401; authorised => never 401. Login: user/group placements generated by graph operations "
+         "(placed, mirrored, moved, deleted, re-added, under deleted groups); after every step UserCheck and POST /v1/auth "
+         "issue a token exactly for matching credentials of a user connected to the root through live edges (model "
+         "reachability), wrong password / e-mail never; GET /v1/nodes with the issued token lists only nodes inside the live "
+         "subtrees of the parents of the user's live placements, and those parents. Bus: a TCP instance with a drawn token "
+         "refuses connections without / with another token and accepts the right one. Non-trivial: HTTP = a structurally "
+         "valid but unauthorised JWT on a mutating method; login = a user with >= 2 placements of which >= 1 is deleted.",
+    assumptions=["forms the statement does not decide (lowercase scheme, surplus blanks, a changed last base64 character) are observed, not judged",
+                 "the auth token is non-empty (the property is conditional on an instance configured with one)"],
+    level_text="Generated requests and credentials (rapid) against a credential oracle, with bus-traffic observation for the no-read-or-"
+               "write clause; generated user placement histories against model reachability for login and listing.",
+    level_note="Trusted: golang-jwt for minting test tokens; ordering of NATS deliveries after Flush on both connections.",
+    technique="property-based testing (rapid): oracle-classified credentials, bus-traffic observation, model reachability for login",
+    design_ref="DESIGN.md section 4, C09",
+)
